@@ -15,6 +15,7 @@ class C17(Prop):
     lean_modules = ["NV.C17.Props", "NV.C17.Witness"]
     theorems = [
         "NV.C17.never_stale",
+        "NV.C17.never_stale_transitive",
         "NV.C17.fresh_binary_used",
         "NV.C17.swap_loop_correct",
         "NV.C17.perm_sort_correct",
@@ -23,13 +24,14 @@ class C17(Prop):
         "NV.C17.relocate_roundtrip",
         "NV.C17.relocate_offsets_preserved",
         "NV.C17.switch_tables_sorted_after_patch",
+        "NV.C17.patch_roundtrip",
     ]
     witness_theorems = [
         "NV.C17.old_type_start_loop_wrong",
         "NV.C17.old_str_case_cmp_missorts",
         "NV.C17.old_patch_offset_negative",
         "NV.C17.old_config_id_blind",
-        "NV.C17.indirect_inherit_not_checked",
+        "NV.C17.old_indirect_inherit_not_checked",
     ]
     consts = [("switchCaseSize", "SWITCH_CASE_SIZE"), ("fSwitch", "F_SWITCH"), ("nameInherited", "NAME_INHERITED"),
               ("indexStartNone", "INDEX_START_NONE"), ("sizeofProgram", "sizeof(program_t)"),
@@ -45,7 +47,8 @@ class C17(Prop):
                  "correspondence on the real static functions + translation validation of whole programs (fresh compile vs "
                  "load from binary, model-on-real-tables) + independent staleness oracle over mtime histories")
     level_text = ("Lean 4 theorems about an executable model of lib/lpc/program/binaries.c: the binary is used only when "
-                  "no dependency is newer and both ids match; the in-place sort by swaps yields the sorted table for every "
+                  "no dependency is newer - source, includes, simul_efun file, and for every program reachable through inherit "
+                  "lists its source, its includes and its saved binary (never_stale_transitive) - and both ids match; the in-place sort by swaps yields the sorted table for every "
                   "table and every order, remapped f_index entries point at the same functions, type_start follows; "
                   "relocation round-trips; string switch tables are sorted the way f_switch searches.  Equality of whole "
                   "programs is by correspondence: generated programs are compiled, dumped, reloaded from the binary and "
@@ -62,7 +65,7 @@ class C17(Prop):
             "compile / edit source / edit include / touch inherited / touch simul_efun + restart / nothing, distinct mtimes, "
             "reload after every step with permuted string addresses); non-trivial = trace with >= 2 lines; distinct = "
             "distinct canonical implementation trace")
-    not_covered = ["byte-level layout of the .b file and corrupted/truncated .b files (robustness is C01/C02 territory)",
+    not_covered = ["byte-level layout of the .b file; damaged .b files are only explored (random truncations / bit flips under ASan, counts in the evidence): flipped bits inside the saved program_t can crash the driver (open exploration finding C17-damaged-binary-crash)",
                    "quickSort itself (modelled by its contract; the comparators are modelled exactly)",
                    "an inherited program that was edited but not reloaded before its heir was compiled (mtime schemes cannot see it)",
                    "a new include file that shadows a recorded one earlier in the search path",
@@ -88,6 +91,10 @@ class C17(Prop):
         need_lb("source", r"check_times\s*\(mtime,\s*name\)\s*<=\s*0")
         need_lb("include", r"check_times\s*\(mtime,\s*iname\)\s*<=\s*0")
         need_lb("inherit", r"check_times\s*\(mtime,\s*buf\)\s*<=\s*0\s*\|\|\s*check_times\s*\(mtime,\s*file_name_two\)\s*==\s*0")
+        need_lb("binary-path", r"if\s*\(file_name\[0\]\s*==\s*'/'\)\s*file_name\+\+;")
+        need_lb("inherited-binary-path", r"if\s*\(file_name_two\[0\]\s*==\s*'/'\)\s*file_name_two\+\+;")
+        need_lb("behind-inherited", r"inherited_program_newer\s*\(mtime,\s*ob->prog\)")
+        need_lb("simul-newer", r"simul_efun_path\[0\]\s*&&\s*check_times\s*\(mtime,\s*simul_efun_path\)\s*==\s*0")
         need_lb("driver_id", r"driver_id\s*!=\s*bin_driver_id")
         need_lb("config_id", r"config_id\s*!=\s*bin_config_id")
         need_lb("magic", r"strncmp\s*\(buf,\s*magic_id,\s*strlen\s*\(magic_id\)\)\s*!=\s*0")
@@ -143,6 +150,48 @@ class C17(Prop):
             ms.append(E.Case(c.id, c.lines + ["--"] + self.impl_cache.get(c.id, [])))
         return E.nvdrive(self.id, "model", E.cases_text(ms))
 
+    # ---- exploration: damaged .b files (robustness; observed under ASan, not modelled) ------------
+    def extra_checks(self, ctx, tier, rng):
+        n = 60 if tier == "quick" else 600
+        cases = []
+        for i in range(n):
+            c = G.sys_case(E.Rng(9000 + i % 7), "x%d" % i, nprog=2, script=[])
+            lines = [l for l in c.lines if not l.startswith("mtime /simul_efun.c 500")]
+            reload_line = [l for l in lines if l.startswith("reload ")][-1]
+            progs = [l.split()[1] for l in lines if l.startswith("prog ") and "save=1" in l]
+            if not progs:
+                continue
+            victim = rng.choice(progs)
+            if rng.chance(1, 2):
+                lines.append("corrupt %s trunc %d" % (victim, rng.below(1000)))
+            else:
+                lines.append("corrupt %s flip %d %d" % (victim, rng.below(1000) if rng.chance(2, 3) else rng.below(60),
+                                                         rng.choice([1, 2, 4, 8, 16, 32, 64, 128, 255])))
+            lines += ["now 5000", reload_line]
+            cases.append(E.Case("x%d" % i, lines))
+        res = E.run_harness(self.exe, self.conf, cases, ctx.rundir, args=["--timeout", "60"])
+        summ = {"cases": len(cases), "fell_back_to_compile": 0, "binary_still_used": 0, "lpc_error": 0, "crash": 0,
+                "crash_samples": []}
+        for c in cases:
+            out = self.canon(res.get(c.id, []))
+            blk = out[out.index("begin 2"):] if "begin 2" in out else out
+            victim = [l for l in c.lines if l.startswith("corrupt ")][0].split()[1]
+            if any(l.startswith("crash") for l in out):
+                summ["crash"] += 1
+                if len(summ["crash_samples"]) < 5:
+                    raw = [l for l in res.get(c.id, []) if l.startswith(("sanitizer", "crash"))]
+                    summ["crash_samples"].append({"corrupt": [l for l in c.lines if l.startswith("corrupt ")][0],
+                                                  "report": raw[:2]})
+            elif any(l.startswith(("err ", "loadfail")) for l in blk):
+                summ["lpc_error"] += 1
+            elif ("lb %s use" % victim) in blk:
+                summ["binary_still_used"] += 1
+            else:
+                summ["fell_back_to_compile"] += 1
+        self.exploration = summ
+        E.log("exploration of damaged binaries: %s" % {k: v for k, v in summ.items() if k != "crash_samples"})
+        return []
+
     # ---- generators ---------------------------------------------------------
     def boundary(self):
         return G.boundary()
@@ -151,7 +200,9 @@ class C17(Prop):
         return G.generate(rng, n, tier)
 
     def histogram(self, cases, impl):
-        return G.histogram(cases, impl)
+        h = G.histogram(cases, impl)
+        h["exploration_damaged_binaries"] = getattr(self, "exploration", None)
+        return h
 
 
 PROP = C17()
